@@ -48,6 +48,15 @@ class RopeArray:
         return self.content + Rope([('src', 'zeros', 0, n - self.fill)])
 
 
+def _as_rope(b):
+    """Whatever a writer hands to a file: Rope, bytes-likes, a whole RopeArray (= all its bytes), a real memoryview."""
+    if isinstance(b, RopeArray):
+        return b[0:b.size]
+    if isinstance(b, memoryview):
+        return _coerce(bytes(b))
+    return _coerce(b)
+
+
 class MemWriter:
     """Stands for ByteWriter: records every write in order."""
 
@@ -62,41 +71,164 @@ class MemWriter:
     filename = 'mem'
 
     def write_bytes(self, bts, size=None):
-        r = _coerce(bts)
+        r = _as_rope(bts)
         self.writes.append((r, size))
         self._total = self._total + (size or len(r))
 
 
 class FakeFS:
-    """``open(path, 'wb'|'ab')`` over a dict path -> Rope; 'wb' truncates, 'ab' appends."""
+    """``open(path, mode)`` over a dict path -> Rope: 'wb' truncates, 'ab' appends, 'r+b' keeps the content and writes at
+    the current position (seek / tell / truncate); ``os.path.exists`` & co. answer from the same dict (``os_shim``).
+    ``snapshots`` holds the content of the file each time it is closed."""
 
     def __init__(self, initial=None):
         self.files = dict(initial or {})
         self.log = []
+        self.snapshots = []
 
-    def open(self, path, mode='r'):
+    def open(self, path, mode='r', *args, **kwargs):
         fs = self
+        if hasattr(path, '__fspath__'):
+            path = path.__fspath__()
 
         class _F:
             def __enter__(self_inner):
-                if mode == 'wb':
+                if mode in ('wb', 'bw', 'wb+', 'w+b'):
                     fs.files[path] = Rope([])
-                elif mode == 'ab':
+                    self_inner.pos = 0
+                    self_inner.append = False
+                elif mode in ('ab', 'ba'):
                     if path not in fs.files:
                         fs.files[path] = Rope([])
+                    self_inner.pos = len(fs.files[path])
+                    self_inner.append = True
+                elif mode in ('r+b', 'rb+', 'br+'):
+                    if path not in fs.files:
+                        raise FileNotFoundError(path)
+                    self_inner.pos = 0
+                    self_inner.append = False
                 else:
                     raise StubGap(f"FakeFS: mode {mode!r} not modelled")
                 fs.log.append((path, mode))
                 return self_inner
 
             def __exit__(self_inner, *a):
+                fs.snapshots.append(fs.files[path])
                 return False
 
-            def write(self_inner, b):
-                fs.files[path] = fs.files[path] + _coerce(b)
-                return len(b)
+            def close(self_inner):
+                fs.snapshots.append(fs.files[path])
 
-        return _F()
+            def write(self_inner, b):
+                b = _as_rope(b)
+                old = fs.files[path]
+                n = len(b)
+                if self_inner.append or self_inner.pos == len(old):
+                    fs.files[path] = old + b
+                    self_inner.pos = len(old) + n
+                else:
+                    pos = self_inner.pos
+                    if pos > len(old):
+                        old = old + Rope([('src', 'zeros', 0, pos - len(old))])      # a hole reads as zero bytes
+                    fs.files[path] = old[0:pos] + b + old[pos + n:len(old)]
+                    self_inner.pos = pos + n
+                return n
+
+            def seek(self_inner, pos, whence=0):
+                if whence == 0:
+                    self_inner.pos = pos
+                elif whence == 1:
+                    self_inner.pos = self_inner.pos + pos
+                elif whence == 2:
+                    self_inner.pos = len(fs.files[path]) + pos
+                else:
+                    raise StubGap('seek whence')
+                return self_inner.pos
+
+            def tell(self_inner):
+                return self_inner.pos
+
+            def truncate(self_inner, size=None):
+                size = self_inner.pos if size is None else size
+                old = fs.files[path]
+                if size < len(old):
+                    fs.files[path] = old[0:size]
+                elif size > len(old):
+                    fs.files[path] = old + Rope([('src', 'zeros', 0, size - len(old))])
+                return size
+
+            def flush(self_inner):
+                return None
+
+            def __getattr__(self_inner, name):
+                if name.startswith('__'):
+                    raise AttributeError(name)
+                raise StubGap(f'FakeFS file object: {name} is not modelled')
+
+        f = _F()
+        return f
+
+    def os_shim(self):
+        """What a writer may ask the operating system about its target, answered from the same dict."""
+        fs = self
+
+        def _p(path):
+            return path.__fspath__() if hasattr(path, '__fspath__') else path
+
+        class _Path:
+            @staticmethod
+            def exists(path):
+                return _p(path) in fs.files
+
+            isfile = exists
+
+            @staticmethod
+            def getsize(path):
+                if _p(path) not in fs.files:
+                    raise FileNotFoundError(path)
+                return len(fs.files[_p(path)])
+
+            def __getattr__(self_inner, name):
+                if name.startswith('__'):
+                    raise AttributeError(name)
+                raise StubGap(f'os.path.{name} is not modelled')
+
+        class _Os:
+            path = _Path()
+
+            @staticmethod
+            def remove(path):
+                if _p(path) not in fs.files:
+                    raise FileNotFoundError(path)
+                del fs.files[_p(path)]
+
+            unlink = remove
+
+            @staticmethod
+            def truncate(path, size):
+                old = fs.files[_p(path)]
+                fs.files[_p(path)] = old[0:size] if size <= len(old) else old + Rope([('src', 'zeros', 0, size - len(old))])
+
+            @staticmethod
+            def fspath(path):
+                return _p(path)
+
+            def __getattr__(self_inner, name):
+                if name.startswith('__'):
+                    raise AttributeError(name)
+                raise StubGap(f'os.{name} is not modelled')
+
+        return _Os()
+
+
+def kmemoryview(b):
+    """``memoryview(b)`` for the byte stand-ins: a view supports len and slicing and holds the same bytes - which is all a
+    Rope / RopeArray is.  Real buffers get the real memoryview."""
+    if isinstance(b, (Rope, RopeArray)):
+        return b
+    if hasattr(b, '_rope'):
+        return b._rope
+    return memoryview(b)
 
 
 def install_buffer_stub(writer_mod):
